@@ -1,6 +1,7 @@
 import Rustemo.Model.LR
 import Rustemo.Model.Cert
 import Rustemo.Model.LayoutCert
+import Rustemo.Props.Example
 /-! Concrete Layout-rule grammars used by the non-vacuity `example`s and the counterexample theorems of
 C14.  The tables are what rustemo builds (LALR_PAGER) for the grammar texts quoted in each namespace,
 taken from the `verif` dump; the recognizers are written out by hand for the one input used. -/
@@ -187,3 +188,22 @@ def recog (term pos : Nat) : Option Nat :=
 def env : Env := { g := g, t := t, input := input, recog := recog, skipWs := false }
 
 end Rustemo.ExampleLayout.N2
+
+namespace Rustemo.ExampleLayout.Ins
+/-! The grammar of `Props/Example.lean` (`S: 'a' S | EMPTY`, default whitespace skipping) on two inputs
+with the same tokens and different whitespace: "a a" and "a  a ". -/
+
+/-- the recognizers of `Example.recog` for an arbitrary input -/
+def recogA (inp : List Nat) (term pos : Nat) : Option Nat :=
+  if term = 1 then (if inp[pos]? = some 97 then some 1 else none)
+  else if term = 0 then (if pos = inp.length then some 0 else none)
+  else none
+
+def input2 : List Nat := [97, 32, 32, 97, 32]
+def env1 : Env := { Example.env with recog := recogA Example.input }
+def env2 : Env := { Example.env with input := input2, recog := recogA input2 }
+
+/-- offsets at which the lexer looks for tokens: start of the first `a`, of the second, end -/
+def R (p q : Nat) : Prop := (p = 0 ∧ q = 0) ∨ (p = 2 ∧ q = 3) ∨ (p = 3 ∧ q = 5)
+
+end Rustemo.ExampleLayout.Ins
